@@ -10,10 +10,17 @@ pub struct Val(pub String);
 #[derive(Debug, PartialEq)]
 pub struct Uniq(pub String);
 
-#[unimock(api=TMock, unmock_with=[real0, _, real2, _, real4, _])]
+#[unimock(api=TMock, unmock_with=[real0, _, _, real2, _, real4, _])]
 pub trait T {
     fn m0(&self, a: u8) -> Val;
     fn m1(&self, a: u8) -> Val;
+    /// receiver-less provided fn: skipped by the macro, but it occupies an unmock_with slot
+    fn assoc() -> u8
+    where
+        Self: Sized,
+    {
+        7
+    }
     fn m2(&self, a: u8) -> Val {
         Val(format!("dflt2({a})"))
     }
